@@ -1388,10 +1388,12 @@ def gen_c05(rng, tier):
         q = gen.gen_ctx(rng, 3, d)
         base["ops"] = [fit0, ("pexp", q), ("fit", ds, [draw() for _ in range(n)], cxn), ("pexp", q)] + base["ops"][1:]
         return {"base": base, "n_jobs": 2, "backend": None, "mode": "jobs", "seed2": rng.randint(0, 10**9)}
-    if z >= 0.9:
+    if z >= 0.85:
         # context-free bandit with several workers: partial_fit batches restricted to a few arms (whole groups of arms absent),
         # a query after each - every arm must be refreshed as with one worker (UCB1's bonus depends on the new total count)
         base = gen.gen_cf_case(rng, max_ops=0, warm=False, foreign_decisions=False, max_rows=30)
+        if rng.random() < 0.5:
+            base["lp"] = ("ucb", rng.choice([0.5, 1.0, 2.0]))      # the policy whose expectation of an ABSENT arm changes with every batch
         arms = list(base["arms"])
         while len(arms) < 4:
             arms.append(max(arms) + 1)
